@@ -480,6 +480,28 @@ def part_unknown_names(ctx, tmp):
     return classify_rows(ctx, rows, items, "unk")
 
 
+# statement slots that take an EXPRESSION which is evaluated on the way out (revert reasons) x every kind of call expression:
+# a program the front end accepts must be compilable by both generators (fix-C09 side finding: `raise extcall X(a).f()`)
+def reason_programs():
+    pre = ("interface X:\n    def f() -> String[32]: nonpayable\n    def g() -> String[32]: view\n\n"
+           "n: uint256\n\n@internal\ndef _s() -> String[32]:\n    self.n += 1\n    return \"s\"\n\n"
+           "@internal\n@view\ndef _v() -> String[32]:\n    return \"v\"\n\n")
+    exprs = [("extcall", "extcall X(a).f()"), ("staticcall", "staticcall X(a).g()"), ("internal-modifying", "self._s()"),
+             ("internal-view", "self._v()"), ("literal", "\"plain\""), ("concat-of-call", "concat(staticcall X(a).g(), \"!\")")]
+    out = []
+    for en, e in exprs:
+        out.append((f"reason:raise:{en}", pre + f"@external\ndef h(a: address, c: bool):\n    raise {e}\n"))
+        out.append((f"reason:assert:{en}", pre + f"@external\ndef h(a: address, c: bool):\n    assert c, {e}\n"))
+        out.append((f"reason:raise-in-internal:{en}", pre + f"@internal\ndef _r(a: address):\n    raise {e}\n\n@external\ndef h(a: address, c: bool):\n    self._r(a)\n"))
+    return out
+
+
+def part_reasons(ctx, tmp):
+    items = [{"id": "rsn:" + nm, "src": src, "how": "revert-reason-expression", "base": nm} for nm, src in reason_programs()]
+    rows = run_shard(tmp, 75, [{"id": it["id"], "src": it["src"]} for it in items], 8, ALL_CONFIGS)
+    return classify_rows(ctx, rows, items, "valid", tag="reasons")
+
+
 def part_env_matrix(ctx, tmp):
     """environment variables / builtins / unbounded types x every EVM target x both pipelines (systematic, fixed list)"""
     items = []
@@ -984,6 +1006,8 @@ def run(ctx):
         estats, n_env = part_env_matrix(ctx, tmp)
         ustats, n_unk = part_unknown_names(ctx, tmp)
         n_env += n_unk
+        rstats, n_rsn = part_reasons(ctx, tmp)
+        n_env += n_rsn
         mstats, n_matrix, n_matrix_exec = part_builtin_matrix(ctx, tmp)
         cstats, n_cf, n_cf_exec = part_cf_exec(ctx, tmp)
         fstats, n_fixed = part_fixed(ctx, tmp)
